@@ -1065,6 +1065,8 @@ class Executor:
             raise OutOfSubset("for loop over a list modified in its body")
         cnt, el = self.iter_desc(s.iter, st)
         idx = spec.get("index", f"_i{k}")
+        if idx in {m.id for m in ast.walk(s.target) if isinstance(m, ast.Name)} | self.modified_names(s.body):
+            raise OutOfSubset(f"loop {k}: ghost index name `{idx}` clashes with a variable assigned by the loop")
         st.env[idx] = IntV(z3.IntVal(0))
         st.env[idx + "_count"] = IntV(cnt)
 
@@ -1139,7 +1141,12 @@ class Executor:
                 if step is not None:
                     step(sx)
                 for hn, hint in enumerate(spec.get("hints", [])):      # intermediate lemmas: proved, then assumed
-                    hg = self.truth(self.ev(_parse(hint), sx, True), sx)
+                    try:
+                        hg = self.truth(self.ev(_parse(hint), sx, True), sx)
+                    except OutOfSubset as e:
+                        if "unknown name in specification" in str(e):
+                            continue          # the hint mentions a local that this path does not define: not used here (sound: hints are only lemmas)
+                        raise
                     self.vc(sx, "hint", f"loop{k}.hint#{hn}", hg, hint)
                     sx.pc.append(hg)
                     self._keep.append(hg)
